@@ -95,9 +95,23 @@ def drv_pathwise(ctx, k, rng):
         if which == "geometric":
             out = ST.generate_geometric_brownian(n, T, init_state=(s0,), sigma=sigma, mu=mu, dt=dt, dtype=dtype, engine=rec)
         elif which == "merton0":
-            out = ST.generate_merton_jump(n, T, init_state=(s0,), sigma=sigma, mu=mu, jump_per_year=0.0, jump_mean=0.1, jump_std=0.2, dt=dt, dtype=dtype, engine=rec)
+            if rng.random() < 0.5:
+                out = ST.generate_merton_jump(n, T, init_state=(s0,), sigma=sigma, mu=mu, jump_per_year=0.0, jump_mean=0.1, jump_std=0.2, dt=dt, dtype=dtype, engine=rec)
+            else:  # the instrument must hand its engine, parameters, dtype and initial state to the generator
+                inst = MertonJumpStock(mu=mu, sigma=sigma, jump_per_year=0.0, jump_mean=0.1, jump_std=0.2, dt=dt, dtype=dtype, engine=rec)
+                inst.simulate(n_paths=n, time_horizon=(T - 1) * dt, init_state=(s0,))
+                out = inst.spot
+                T = out.shape[1]
+                tgrid = torch.arange(T, dtype=F64) * dt
         else:
-            out = ST.generate_kou_jump(n, T, init_state=(s0,), sigma=sigma, mu=mu, jump_per_year=0.0, dt=dt, dtype=dtype, engine=rec)
+            if rng.random() < 0.5:
+                out = ST.generate_kou_jump(n, T, init_state=(s0,), sigma=sigma, mu=mu, jump_per_year=0.0, dt=dt, dtype=dtype, engine=rec)
+            else:
+                inst = KouJumpStock(sigma=sigma, mu=mu, jump_per_year=0.0, dt=dt, dtype=dtype, engine=rec)
+                inst.simulate(n_paths=n, time_horizon=(T - 1) * dt, init_state=(s0,))
+                out = inst.spot
+                T = out.shape[1]
+                tgrid = torch.arange(T, dtype=F64) * dt
         want = [s0 * torch.exp((mu - sigma**2 / 2) * tgrid + sigma * bm(z)) for z in rec.calls if z.shape == (n, T)]
         scale = None
     ctx.seen(mon)
